@@ -47,14 +47,7 @@ fn run_case(rec: &mut Recorder, sched: &Schedule, label: &str) {
         let mut trx = r.transaction();
         let mut mark = lg.len();
         let before = if r.exists() { Some(snapshot(&mut r)) } else { None };
-        let mut failed_add = false;
         for c in batch {
-            if failed_add {
-                // a failed merge leaves the transaction in the F1-family state; the rest of the batch
-                // goes into the next transaction (counted, not delivered here)
-                rec.count("skipped_after_failed_add");
-                continue;
-            }
             if !lg.has_parents(c) {
                 rec.count("skipped_unknown_parent");
                 continue;
@@ -88,7 +81,6 @@ fn run_case(rec: &mut Recorder, sched: &Schedule, label: &str) {
                 }
                 Err(e) => {
                     rec.count(&format!("add_err:{}", err_name(e)));
-                    failed_add = true;
                     match (e, merge_parents) {
                         (ClientError::ParallelFinalize, Some(hs)) => {
                             pf_merges += 1;
@@ -185,7 +177,6 @@ fn run_case(rec: &mut Recorder, sched: &Schedule, label: &str) {
 fn guarded(rec: &mut Recorder, sched: &Schedule, label: &str, case: usize) {
     match vh::catch(std::panic::AssertUnwindSafe(|| run_case(rec, sched, label))) {
         Ok(()) => {}
-        Err(p) if is_f1_panic(&p) => rec.notes.push(format!("case {case}: known F1-family assert: {p}")),
         Err(p) => rec.panics.push(format!("case {case}: {p}")),
     }
 }
